@@ -99,8 +99,12 @@ unsafe fn sim_path(p: *const c_char) -> Option<String> {
     if b.len() < 6 || &b[..6] != b"/simfs" {
         return None;
     }
-    let s = std::str::from_utf8(b).ok()?;
-    simfs::normalise(s)
+    // Paths need not be valid UTF-8 on Linux. SimFs keys are Strings: a path that is not UTF-8 is
+    // keyed by its Latin-1 reading (every byte one char) - consistently, so look-ups agree.
+    match std::str::from_utf8(b) {
+        Ok(s) => simfs::normalise(s),
+        Err(_) => simfs::normalise(&b.iter().map(|c| *c as char).collect::<String>()),
+    }
 }
 
 /// A path relative to a simulated directory descriptor.
